@@ -73,6 +73,23 @@ def probes(chk, w2c2):
             exp += [None] * 2
             lines.append('c 0 %d %s 0x7 %s' % (fk, hex(A), hex(1000000)))
             exp.append((2, '%s offset=%d: cell at base+offset equals expected, 1 ms timeout' % (kind, o)))
+        if o % 8 == 0:
+            # comparison width: wait64 compares all 64 bits (halves that differ only high or only low), wait32 only its own word
+            fk64, st64 = plan.fk('wait64_o%d' % o), plan.fk('store64')
+            fk32 = plan.fk('wait32_o%d' % o)
+            cell = 0x0000000500000007
+            for expv, want, what in ((0x0000000600000007, 1, 'expected differs in the HIGH half only'), (0x0000000500000008, 1, 'expected differs in the LOW half only'),
+                                     (0x0000000500000007, 2, 'expected equals the whole cell (non-zero high half)'), (0x8000000500000007, 1, 'expected differs in bit 63 only')):
+                lines.append('c 0 %d %s %s' % (st64, hex(A + o), hex(cell)))
+                exp.append(None)
+                lines.append('c 0 %d %s %s %s' % (fk64, hex(A), hex(expv), hex(1000000)))
+                exp.append((want, 'wait64 offset=%d: %s' % (o, what)))
+            lines.append('c 0 %d %s %s' % (st64, hex(A + o), hex(cell)))
+            exp.append(None)
+            lines.append('c 0 %d %s 0x7 %s' % (fk32, hex(A), hex(1000000)))
+            exp.append((2, 'wait32 offset=%d: own word equals expected, neighbouring word is non-zero' % o))
+            lines.append('c 0 %d %s 0x5 %s' % (fk32, hex(A + 4), hex(1000000)))
+            exp.append((2, 'wait32 offset=%d: on the upper word of a 64-bit cell' % o))
         nk = plan.fk('notify_o%d' % o)
         lines.append('c 0 %d %s 0x5' % (nk, hex(A)))
         exp.append((0, 'notify offset=%d with no waiters' % o))
